@@ -124,6 +124,17 @@ def r18_2(ctx):
             return True
         return False
     exc_g = core.guard_edges(body, first_packet)
+
+    def not_media_under_latch(term, meaning, *_):
+        # the False edge of a boolean that is only true when latching is on (its definitions read latch_on_rtp): on it the
+        # packet is not RTP/RTCP, or latching is off; plus the inbound-TCP edge (the stream fixes the peer)
+        if term[0] == "var" and term[1] == "socket_is_inbound_tcp" and meaning is True:
+            return True
+        if meaning is False and term[0] in ("var", "phi"):
+            alts = body.var_def_terms(term[2]) if term[0] == "var" and len(term) > 2 else list(term[1]) if term[0] == "phi" else []
+            return any(mir.has(a, lambda x: core.is_atomic_load(x, "latch_on_rtp")) for a in alts)
+        return False
+    exc_latch_g = core.guard_edges(body, not_media_under_latch)
     n_exc = 0
     for bi, si, s, val in writes:
         site = "write:remote_addr=%s" % mir.show(val, 40)
@@ -136,11 +147,15 @@ def r18_2(ctx):
             continue
         if exc_g and core.k1(body, [bi], exc_g)[bi] is None and val == ("field", ("env",), "addr"):
             n_exc += 1
-            if n_exc > 1:
+            if not exc_latch_g or core.k1(body, [bi], exc_latch_g)[bi] is not None:
+                r.violate(RECEIVE, "write:remote_addr:bootstrap", body.where(bi, si),
+                          "while the remote address is unknown (port 0) ANY packet - RTCP, RTP with the wrong SSRC - sets the RTP destination even "
+                          "with latching on: the first-packet shortcut must leave RTP/RTCP to the latch rules")
+            elif n_exc > 1:
                 r.violate(RECEIVE, site, body.where(bi, si), "more than one write relies on first-packet exception E18.a")
             else:
                 r.ok({"site": "%s %s" % (body.where(bi, si), site),
-                      "exception": "E18.a first packet: remote port==0 or inbound TCP stream"})
+                      "exception": "E18.a first packet: remote port==0 (and not RTP/RTCP under latching) or inbound TCP stream"})
             continue
         r.violate(RECEIVE, site, body.where(bi, si),
                   "RTP destination written without guard(s): %s" % ", ".join(missing))
